@@ -183,6 +183,17 @@ Lemma tie_hex_arith d n :
   geval (env1 "max_digits" d) n hex_max_digits_full = n * 2.
 Proof. split; reflexivity. Qed.
 
+(* hex_encode_fallback as it stands in the source: the alphabets, the shape of the loop (chunks of two
+   destination bytes zipped with the source bytes, destination first) and the two digit indices are
+   those of Hex.enc_loop; the unreachable hint is Hex.hex_encode_fallback's test *)
+Lemma tie_hex_fallback :
+  (forall up, List.find (fun p => Bool.eqb (fst p) up) hex_alphabets = Some (up, Hex.alphabet up)) /\
+  hex_fallback_shape = (GInt 2, true, "c"%string) /\
+  (forall c n, map (fun p => (geval (env1 "c" c) n (fst p), geval (env1 "c" c) n (snd p))) hex_fallback_digits
+               = [(0, Z.shiftr c 4); (1, Z.land c 15)]) /\
+  (forall ld ls n, ctest (env2 "dst.len" ld "src.len" ls) n hex_fallback_guard = (ld <? ls * 2)).
+Proof. repeat split; try reflexivity. intros []; reflexivity. Qed.
+
 (* ---------------- C17: the checks of visit_seq and the tuple length (src/impl_serde.rs) ---------------- *)
 
 Lemma tie_serde_hint n (h : option Z) :
